@@ -732,7 +732,7 @@ func ReconstructMessageWithSharedDBAndS3(sharedDB *sql.DB, userDB *sql.DB, messa
 		// Use DFS to reconstruct the MIME structure
 		// If we have a single root part, handle it directly
 		if len(rootParts) == 1 {
-			if err := reconstructPartDFS(&buf, sharedDB, rootParts[0], s3Storage, ""); err != nil {
+			if err := reconstructPartDFS(&buf, sharedDB, messageID, rootParts[0], s3Storage, ""); err != nil {
 				return "", err
 			}
 		} else if len(rootParts) > 1 {
@@ -748,7 +748,9 @@ func ReconstructMessageWithSharedDBAndS3(sharedDB *sql.DB, userDB *sql.DB, messa
 			if len(subtype) > 0 {
 				subtype = strings.ToUpper(subtype[:1]) + subtype[1:]
 			}
-			boundary := fmt.Sprintf("----=_Part_%s_%d", subtype, time.Now().UnixNano())
+			// The boundary is derived from the message (part 0 stands for the generated
+			// root container) so that every fetch returns the same octets
+			boundary := partBoundary(subtype, messageID, 0)
 
 			fmt.Printf("DEBUG ReconstructMessage: Using %s for %d root parts\n", multipartType, len(rootParts))
 
@@ -758,7 +760,7 @@ func ReconstructMessageWithSharedDBAndS3(sharedDB *sql.DB, userDB *sql.DB, messa
 
 			for _, rootNode := range rootParts {
 				buf.WriteString(fmt.Sprintf("--%s\r\n", boundary))
-				if err := reconstructPartDFS(&buf, sharedDB, rootNode, s3Storage, boundary); err != nil {
+				if err := reconstructPartDFS(&buf, sharedDB, messageID, rootNode, s3Storage, boundary); err != nil {
 					return "", err
 				}
 			}
@@ -837,8 +839,15 @@ type PartNode struct {
 	Children []*PartNode
 }
 
+// partBoundary returns the boundary of a regenerated multipart container. It depends
+// only on the message and on the container's row, so that repeated fetches of a message
+// return identical octets and two containers of one message never share a boundary.
+func partBoundary(subtype string, messageID, partID int64) string {
+	return fmt.Sprintf("----=_Part_%s_%d_%d", subtype, messageID, partID)
+}
+
 // reconstructPartDFS recursively reconstructs a MIME part using depth-first search
-func reconstructPartDFS(buf *bytes.Buffer, sharedDB *sql.DB, node *PartNode, s3Storage *blobstorage.S3BlobStorage, parentBoundary string) error {
+func reconstructPartDFS(buf *bytes.Buffer, sharedDB *sql.DB, messageID int64, node *PartNode, s3Storage *blobstorage.S3BlobStorage, parentBoundary string) error {
 	contentType := node.Part["content_type"].(string)
 	contentTypeLower := strings.ToLower(contentType)
 
@@ -855,7 +864,7 @@ func reconstructPartDFS(buf *bytes.Buffer, sharedDB *sql.DB, node *PartNode, s3S
 		if len(subtype) > 0 {
 			subtype = strings.ToUpper(subtype[:1]) + subtype[1:]
 		}
-		boundary := fmt.Sprintf("----=_Part_%s_%d", subtype, time.Now().UnixNano())
+		boundary := partBoundary(subtype, messageID, node.Part["id"].(int64))
 
 		fmt.Printf("DEBUG reconstructPartDFS: Multipart container type='%s' with %d children, boundary='%s'\n",
 			multipartType, len(node.Children), boundary)
@@ -886,7 +895,7 @@ func reconstructPartDFS(buf *bytes.Buffer, sharedDB *sql.DB, node *PartNode, s3S
 		// Recursively process all children with DFS
 		for _, child := range children {
 			fmt.Fprintf(buf, "--%s\r\n", boundary)
-			if err := reconstructPartDFS(buf, sharedDB, child, s3Storage, boundary); err != nil {
+			if err := reconstructPartDFS(buf, sharedDB, messageID, child, s3Storage, boundary); err != nil {
 				return err
 			}
 		}
